@@ -1,6 +1,129 @@
-// banded kinds -- filled in by the corresponding check (see /verif/CONVENTIONS.md).
-#![allow(unused_imports, dead_code)]
+// Banded matrix kinds (C04).  Everything goes through the public API of ohsl::Banded:
+// new, index / index_mut, fill, resize, fill_band, the operators, solve, det, compact().
+//
+//   band.hist <B> (<op> <args> ;)*
+//       answer: state, then per op: result value (if any) or P<class>, the state only where the op `dump` asks for it
+//       state  = n m1 m2 rows cols <compact values, row-major>
+//   <B> = B<n>,<m1>,<m2>[v,...]   every slot of the n x (m1+m2+1) compact storage, padding included.
+//
+// A literal is built through the public API only: every slot (i,s) of the compact storage is the
+// in-band element (i, i+s) of an upper-banded matrix of the same row width (Banded::new(n, 0, m1+m2)),
+// written with index_mut; resize(n, m1, m2) then re-labels the bandwidths and copies the storage.
+// Nothing is verified here: the first item of the answer is the state after construction, which the
+// driver compares with the literal (oracle) and with the model (tie).
+use std::panic::{catch_unwind, AssertUnwindSafe};
+use ohsl::{Banded, Vector};
 use crate::io::{Args, Out, Elt};
-pub fn run<T: Elt>(kind: &str, _a: &mut Args, _out: &mut Out) {
-    panic!("harness: unknown kind {}", kind);
+
+fn split_list(tok: &str) -> Vec<&str> {
+    let inner = tok.strip_prefix('[').and_then(|t| t.strip_suffix(']')).unwrap_or_else(|| panic!("harness: bad list {}", tok));
+    if inner.is_empty() { Vec::new() } else { inner.split(',').collect() }
+}
+
+fn band_lit<T: Elt>(tok: &str) -> Banded<T> {
+    let t = tok.strip_prefix('B').unwrap_or_else(|| panic!("harness: bad banded literal {}", tok));
+    let (dims, rest) = t.split_at(t.find('[').expect("harness: bad banded literal"));
+    let d: Vec<usize> = dims.split(',').map(|x| x.parse().expect("harness: bad banded dims")).collect();
+    if d.len() != 3 { panic!("harness: bad banded dims"); }
+    let (n, m1, m2) = (d[0], d[1], d[2]);
+    let mm = m1 + m2 + 1;
+    let vals: Vec<T> = split_list(rest).into_iter().map(T::parse).collect();
+    if vals.len() != n * mm { panic!("harness: banded literal size"); }
+    let mut b = Banded::<T>::new(n, 0, m1 + m2, T::zero());
+    for i in 0..n { for s in 0..mm { b[(i, i + s)] = vals[i * mm + s]; } }
+    b.resize(n, m1, m2);
+    b
+}
+
+fn emit<T: Elt>(out: &mut Out, b: &Banded<T>) {
+    out.usize(b.size()); out.usize(b.size_below()); out.usize(b.size_above());
+    out.m(b.compact());
+}
+fn toks_b<T: Elt>(b: &Banded<T>) -> Vec<String> { let mut o = Out::new(); emit(&mut o, b); o.toks }
+fn toks_v<T: Elt>(v: &Vector<T>) -> Vec<String> { let mut o = Out::new(); o.v(v); o.toks }
+fn toks_s<T: Elt>(x: &T) -> Vec<String> { let mut o = Out::new(); o.s(x); o.toks }
+
+fn unchanged<T: Elt>(b: &Banded<T>, snap: &Vec<String>, what: &str) {
+    if &toks_b(b) != snap { panic!("harness: operand mutated by {}", what); }
+}
+fn unchanged_v<T: Elt>(v: &Vector<T>, snap: &Vec<String>, what: &str) {
+    if &toks_v(v) != snap { panic!("harness: operand mutated by {}", what); }
+}
+fn forms<T: Elt>(a: &Banded<T>, b: &Banded<T>, what: &str) {
+    if toks_b(a) != toks_b(b) { panic!("harness: owned/borrowed forms differ ({})", what); }
+}
+
+fn step<T: Elt>(b: &mut Banded<T>, op: &str, a: &mut Args, out: &mut Out) {
+    match op {
+        "new" => { let (n, m1, m2) = (a.usize(), a.usize(), a.usize()); let x = a.s::<T>(); *b = Banded::new(n, m1, m2, x); }
+        "fill" => { let x = a.s::<T>(); b.fill(x); }
+        "resize" => { let (n, m1, m2) = (a.usize(), a.usize(), a.usize()); b.resize(n, m1, m2); }
+        "fill_band" => { let k = a.isize(); let x = a.s::<T>(); b.fill_band(k, x); }
+        "set" => { let (i, j) = (a.usize(), a.usize()); let x = a.s::<T>(); b[(i, j)] = x; }
+        "add_assign" => { let c = band_lit::<T>(a.word()); let s = toks_b(&c); *b += &c; unchanged(&c, &s, "+="); }
+        "sub_assign" => { let c = band_lit::<T>(a.word()); let s = toks_b(&c); *b -= &c; unchanged(&c, &s, "-="); }
+        "add_assign_own" => { let c = band_lit::<T>(a.word()); *b += c; }
+        "sub_assign_own" => { let c = band_lit::<T>(a.word()); *b -= c; }
+        "mul_assign_s" => { let x = a.s::<T>(); *b *= x; }
+        "div_assign_s" => { let x = a.s::<T>(); *b /= x; }
+        "add_assign_s" => { let x = a.s::<T>(); *b += x; }
+        "sub_assign_s" => { let x = a.s::<T>(); *b -= x; }
+        // ---- value-returning: the operand must stay bit-for-bit unchanged, owned form must agree
+        "get" => { let (i, j) = (a.usize(), a.usize()); out.s(&b[(i, j)]); }
+        "getall" => {
+            // every (i,j) of the n x n matrix through the index operator: a value, or P<class> where it panics
+            let n = b.size();
+            for i in 0..n { for j in 0..n {
+                let r = catch_unwind(AssertUnwindSafe(|| b[(i, j)]));
+                match r {
+                    Ok(x) => out.s(&x),
+                    Err(_) => { let msg = crate::LAST_PANIC.with(|p| p.borrow().clone()); out.toks.push(format!("P{}", crate::classify(&msg))); }
+                }
+            } }
+        }
+        "neg" => { let s = toks_b(b); let r = -&*b; unchanged(b, &s, "neg"); let r2 = -(b.clone()); forms(&r, &r2, "neg"); emit(out, &r); }
+        "add" => { let c = band_lit::<T>(a.word()); let (s1, s2) = (toks_b(b), toks_b(&c)); let r = &*b + &c;
+            unchanged(b, &s1, "+"); unchanged(&c, &s2, "+"); let r2 = b.clone() + c.clone(); forms(&r, &r2, "+"); emit(out, &r); }
+        "sub" => { let c = band_lit::<T>(a.word()); let (s1, s2) = (toks_b(b), toks_b(&c)); let r = &*b - &c;
+            unchanged(b, &s1, "-"); unchanged(&c, &s2, "-"); let r2 = b.clone() - c.clone(); forms(&r, &r2, "-"); emit(out, &r); }
+        "scale" => { let x = a.s::<T>(); let s = toks_b(b); let r = &*b * x; unchanged(b, &s, "*s"); let r2 = b.clone() * x; forms(&r, &r2, "*s"); emit(out, &r); }
+        "div" => { let x = a.s::<T>(); let s = toks_b(b); let r = &*b / x; unchanged(b, &s, "/s"); let r2 = b.clone() / x; forms(&r, &r2, "/s"); emit(out, &r); }
+        "mulv" => { let v = a.v::<T>(); let (s1, s2) = (toks_b(b), toks_v(&v)); let r = &*b * &v;
+            unchanged(b, &s1, "*v"); unchanged_v(&v, &s2, "*v");
+            let r2 = b.clone() * v.clone(); if toks_v(&r) != toks_v(&r2) { panic!("harness: owned/borrowed forms differ (band*vec)"); }
+            out.v(&r); }
+        "solve" => { let v = a.v::<T>(); let (s1, s2) = (toks_b(b), toks_v(&v)); let x = b.solve(&v);
+            unchanged(b, &s1, "solve"); unchanged_v(&v, &s2, "solve"); out.v(&x); }
+        "det" => { let s = toks_b(b); let d = b.det(); unchanged(b, &s, "det");
+            let d2 = b.clone().det(); if toks_s(&d) != toks_s(&d2) { panic!("harness: clone differs (det)"); }
+            out.s(&d); }
+        "dump" => { emit(out, b); }
+        "size" => { out.usize(b.size()); out.usize(b.size_below()); out.usize(b.size_above()); }
+        _ => panic!("harness: unknown banded op {}", op),
+    }
+}
+
+pub fn run<T: Elt>(kind: &str, a: &mut Args, out: &mut Out) {
+    match kind {
+        "band.hist" => {
+            let mut b = band_lit::<T>(a.word());
+            emit(out, &b);
+            while a.more() {
+                let op = a.word();
+                let mark = out.toks.len();
+                let r = catch_unwind(AssertUnwindSafe(|| step(&mut b, op, a, out)));
+                if r.is_err() {
+                    let msg = crate::LAST_PANIC.with(|p| p.borrow().clone());
+                    let cls = crate::classify(&msg);
+                    if cls == "harness" || cls == "ratovf" { panic!("{}", msg); }
+                    out.toks.truncate(mark);
+                    out.toks.push(format!("P{}", cls));
+                } else if out.toks.len() == mark {
+                    out.usize(0);     // an operation without a result answers i0: a P item always belongs to the op at whose place it stands
+                }
+                while a.more() { if a.word() == ";" { break; } }
+            }
+        }
+        _ => panic!("harness: unknown kind {}", kind),
+    }
 }
